@@ -12,7 +12,7 @@ from vt import symx
 from vt.oblig import Obligation
 import props._graphs as G
 
-from traits.api import HasTraits, Int, Str, List, Dict, Instance, Property, cached_property, push_exception_handler, pop_exception_handler
+from traits.api import HasTraits, Int, Str, List, Dict, Instance, Any, Property, cached_property, push_exception_handler, pop_exception_handler
 
 LEVEL = "model_checking"
 ENCODED = [("traits/has_traits.py", ["cached_property", "HasTraits._init_trait_property_listener", "HasTraits.__setstate__",
@@ -35,9 +35,20 @@ class Item(HasTraits):
 SHARED = Item(value=1000)
 
 
-class Holder(HasTraits):
-    """module level (picklable)"""
+from traits.constants import ComparisonMode
+
+
+class HolderBase(HasTraits):
+    """declares a property with a PLAIN getter; the subclass in use overrides the getter with a cached one"""
     base = Int(1)
+    sub_p = Property(Int, observe="base")
+
+    def _get_sub_p(self):
+        return self.base * 5
+
+
+class Holder(HolderBase):
+    """module level (picklable)"""
     child = Instance(Item)
     kids = List(Instance(Item))
     table = Dict(Str, Int)
@@ -49,6 +60,16 @@ class Holder(HasTraits):
     plain = Property(Int, observe="base")                        # not cached
     weight = Property(Int, observe="parts.items.value")
     scaled = Property(Int, observe="config.value")
+    ident_dep = Any(1, comparison_mode=ComparisonMode.identity)     # every NEW object is a change, equal or not
+    ident_p = Property(Str, observe="ident_dep")
+
+    @cached_property
+    def _get_ident_p(self):
+        return type(self.ident_dep).__name__
+
+    @cached_property
+    def _get_sub_p(self):
+        return self.base * 5
 
     @cached_property
     def _get_weight(self):
@@ -79,13 +100,13 @@ class Holder(HasTraits):
 def recompute(h):
     return {"total": sum(k.value for k in h.kids), "echo": h.child.value if h.child is not None else -1,
             "size": sum(h.table.values()), "plain": h.base * 3, "weight": sum(p.value for p in h.parts.values()),
-            "scaled": h.config.value * 2}
+            "scaled": h.config.value * 2, "ident_p": type(h.ident_dep).__name__, "sub_p": h.base * 5}
 
 
-PROPS = ("total", "echo", "size", "plain", "weight", "scaled")
+PROPS = ("total", "echo", "size", "plain", "weight", "scaled", "ident_p", "sub_p")
 OPS = ["read", "kid_value", "append", "insert_dup", "del", "slice_dup", "remove_first", "child=", "child_value", "table_set",
        "table_del", "base", "sort_reverse", "assign_dup_list", "pop", "part_same", "part_update_same", "part_value", "part_new",
-       "shared_value", "config=", "config_value", "del_kids", "del_child", "del_parts", "del_config"]
+       "shared_value", "config=", "config_value", "del_kids", "del_child", "del_parts", "del_config", "ident=1.0", "ident=True"]
 
 
 CORE_OPS = ["kid_value", "append", "insert_dup", "del", "slice_dup", "pop", "assign_dup_list", "part_same", "part_value", "del_kids"]
@@ -103,7 +124,7 @@ def harness_factory(variant, k, first=None, ops=None):
 
     def body(ex, errors):
         a = Item(value=2)
-        dup_start = ex.flag("kids_start_with_a_duplicate")
+        dup_start = variant != "original" or ex.flag("kids_start_with_a_duplicate")      # copies re-hook whole containers: always with a repeated item
         h = Holder(child=Item(value=5), kids=[a, a, Item(value=3)] if dup_start else [a, Item(value=3)], table={"x": 1},
                    parts={"p": Item(value=4), "q": Item(value=6)})
         h.total, h.echo, h.size, h.weight          # warm the caches before copying (scaled / config stay untouched on purpose)
@@ -113,8 +134,11 @@ def harness_factory(variant, k, first=None, ops=None):
             h = h.clone_traits()
         a = h.kids[0]
         notes = []
-        for pname in PROPS:
-            h.on_trait_change(lambda name, new: notes.append((name, new)), pname)
+        if variant == "original" and ex.flag("only_an_unnamed_object_level_listener"):
+            h.on_trait_change(lambda obj, name, old, new: notes.append((name, new)) if name in PROPS else None)
+        else:
+            for pname in PROPS:
+                h.on_trait_change(lambda name, new: notes.append((name, new)), pname)
         trace = []
         for step in range(k):
             pool_ = ops or OPS
@@ -184,6 +208,10 @@ def harness_factory(variant, k, first=None, ops=None):
                     h.config = Item(value=50 + step)
                 elif op == "config_value":
                     h.config.value += 1
+                elif op == "ident=1.0":
+                    h.ident_dep = 1.0                # equal to 1 and to True, another object of another type
+                elif op == "ident=True":
+                    h.ident_dep = True
                 elif op in ("del_kids", "del_child", "del_parts", "del_config"):
                     delattr(h, op[4:])               # back to the default (announced once; the dependants follow)
             except symx.PathAbort:
